@@ -43,13 +43,27 @@ def run(pid, tier, seed, replay):
         # ShadowEqualsLive after every report; the pre-repair shape is a negative control that TLC must refute
         import concurrent.futures as cf
         import random
-        for cfg, hold in (("MC_SioCrew.cfg", True), ("MC_SioCrew_negctl.cfg", False)):
+        for cfg, hold in (("MC_SioCrew_refines.cfg", True), ("MC_SioCrew_negctl.cfg", False)):
             d = vlib.fresh_dir(pid, "mc_" + cfg[:-4])
             r = vlib.tlc(d, "MC_SioCrew.tla", cfg, workers=8, timeout=1800, heap="6g")
             mc_states += r["distinct"]
             mc_gen += r["generated"]
             if hold != bool(r["ok"]):
                 raise vlib.CannotRun("SioCrew.tla / %s: expected %s\n%s" % (cfg, "no error" if hold else "a refutation", r["out"][-1500:]))
+        # ShadowEqualsLive for histories of ANY length: the typed copy SioCrewInd.tla has an inductive invariant that Apalache
+        # discharges; MC_SioCrew_refines.cfg (above) has TLC check that every step of SioCrew.tla is a step of that copy
+        import shutil as _sh
+        apal = "skipped (apalache-mc not found)"
+        if _sh.which("apalache-mc"):
+            d = vlib.fresh_dir(pid, "apalache")
+            _sh.copyfile(os.path.join(vlib.SPEC, "SioCrewInd.tla"), os.path.join(d, "SioCrewInd.tla"))
+            for init, length in (("IndInit", "1"), ("Init", "0")):
+                p = vlib.run(["timeout", "600", "apalache-mc", "check", "--init=" + init, "--inv=IndInv", "--length=" + length,
+                              "--out-dir=" + os.path.join(d, "apalache-out"), "SioCrewInd.tla"], cwd=d, timeout=700, check=False)
+                if "The outcome is: NoError" not in p.stdout:
+                    raise vlib.CannotRun("Apalache did not confirm IndInv of SioCrewInd.tla (%s, length %s):\n%s" % (init, length, p.stdout[-1500:]))
+            apal = "inductive invariant confirmed"
+        log("  SioCrewInd.tla: every step of SioCrew.tla is a step of the typed copy (TLC); Apalache: %s" % apal)
         d = vlib.fresh_dir(pid, "mc_export")
         r = vlib.tlc_ok(d, "MC_SioCrew.tla", "MC_SioCrew_export3.cfg" if tier == "quick" else "MC_SioCrew_export.cfg", workers=1, timeout=3000, heap="8g")
         mc_states += r["distinct"]
